@@ -354,6 +354,12 @@ func runCheck(c *CheckDef, tier string, workers int, only, solver string, seed i
 	}
 	if c.Deadline != nil {
 		run.Deadline = time.Now().Add(c.Deadline(tier))
+	} else if tier == "thorough" {
+		run.Deadline = time.Now().Add(5 * time.Hour)
+	} else {
+		// a quick check that does not finish in 25 minutes is reported as
+		// inconclusive (never as a pass)
+		run.Deadline = time.Now().Add(25 * time.Minute)
 	}
 	run.FailFast = 300
 	if mp := os.Getenv("VERIF_MAXPATHS"); mp != "" {
